@@ -131,12 +131,14 @@ def trait_case(cid, rng, inversion):
         # (`#[deprecated]` is not used: rustc rejects it on trait-impl items, and the statement demands mirroring)
         extra = rng.sample(["/// method doc", "#[allow(unused)]", "#[must_use]", "#[inline]", "#[doc(hidden)]"], rng.randint(0, 2))
         ms.append(("m%d" % i, cfg, extra))
+    # a third of the methods are async (desugared by the macro: the delegating method is generated on another path)
+    asy = {name: ("async " if rng.random() < 0.35 else "") for name, _c, _e in ms}
     L.append("#[::entrait::entrait(%s)] /*@inv*/" % opts)
     L.append("pub trait Tr {")
     for name, cfg, extra in ms:
         for a in ([cfg] if cfg else []) + extra:
             L.append("    " + a)
-        L.append("    fn %s(&self, a: i32) -> i32;" % name)
+        L.append("    %sfn %s(&self, a: i32) -> i32;" % (asy[name], name))
     L.append("}")
     enabled = [m for m in ms if m[1] != "#[cfg(any())]"]
     if not inversion:
@@ -145,7 +147,7 @@ def trait_case(cid, rng, inversion):
         for name, cfg, extra in ms:
             if cfg:
                 L.append("    " + cfg)
-            L.append('    fn %s(&self, a: i32) -> i32 { ::vrt::enter("%s::Prov::%s", ::vrt::tn(self), ::vrt::addr(self), &[&a as &dyn ::core::fmt::Debug]); a + 1 }' % (name, cid, name))
+            L.append('    %sfn %s(&self, a: i32) -> i32 { ::vrt::enter("%s::Prov::%s", ::vrt::tn(self), ::vrt::addr(self), &[&a as &dyn ::core::fmt::Debug]); a + 1 }' % (asy[name], name, cid, name))
         L.append("}")
         ctor = "Prov"
     else:
@@ -158,13 +160,13 @@ def trait_case(cid, rng, inversion):
             body = '{ ::vrt::enter("%s::Target::%s", ::vrt::tn(deps), ::vrt::addr(deps), &[&a as &dyn ::core::fmt::Debug]); a + 1 }' % (cid, name)
             if cfg == "#[cfg(any())]":
                 body = "{ this_does_not_exist(a) }"
-            L.append("    fn %s<D>(deps: &D, a: i32) -> i32 %s" % (name, body))
+            L.append("    %sfn %s<D>(deps: &D, a: i32) -> i32 %s" % (asy[name], name, body))
         L.append("}")
         L.append("pub struct App; impl DelegateTr<Self> for App { type Target = Target; }")
         ctor = "App"
     D = ["pub fn run() {", "    let app = ::entrait::Impl::new(%s);" % ctor]
     for name, cfg, extra in enabled:
-        D.append('    ::vrt::phase("%s"); let r = app.%s(5); ::vrt::result(&r);' % (name, name))
+        D.append('    ::vrt::phase("%s"); let r = %s; ::vrt::result(&r);' % (name, ("::vrt::block_on(app.%s(5))" if asy[name] else "app.%s(5)") % name))
     D.append("}")
     meta = {"family": "trait-inversion" if inversion else "trait", "methods": ms, "enabled": [m[0] for m in enabled],
             "nontrivial": any(m[1] for m in ms), "marks": []}
